@@ -224,7 +224,28 @@ func verifC03Step(cfg vStoreCfg, focus int) {
 	sp := verifSymSpecC03(cfg, focus, nSlots)
 	env.build(sp)
 	env.checkStateC03(sp, "C03 after build")
+	// thorough: a second operation from the state the first one left (states
+	// that only a history of updates / deletes produces, e.g. a field rewritten
+	// to null rather than never written); quick: the single inductive step
+	if verifrt.Tier() == 1 && nSlots == 3 {
+		nSlots = 2 // the two-step history runs over two slots
+	}
+	steps := 1
+	if verifrt.Tier() == 1 {
+		steps = 2
+	}
+	for step := 0; step < steps; step++ {
+		next, changed := verifC03One(env, cfg, focus, sp, nSlots)
+		if !changed {
+			return
+		}
+		sp = next
+	}
+}
 
+// verifC03One performs one symbolic operation from state sp and checks the
+// result; it returns the successor state (false if the operation was rejected).
+func verifC03One(env *vEnv, cfg vStoreCfg, focus int, sp *vSpec, nSlots int) (*vSpec, bool) {
 	j := verifrt.Choose("slot", nSlots)
 	op := verifrt.Choose("op", 4)
 	next := *sp
@@ -308,9 +329,10 @@ func verifC03Step(cfg vStoreCfg, focus int) {
 			verifrt.Assert(IsErrNotFoundErr(err), "C03 missing entity reported as not found")
 		}
 		env.checkStateC03(sp, "C03 after a rejected operation (unchanged)")
-		return
+		return sp, false
 	}
 	env.checkStateC03(&next, "C03 after the operation")
+	return &next, true
 }
 
 func VerifC03_UniqueName()         { verifC03Step(vStoreCfg{nickNullable: true}, vFocusName) }
